@@ -207,10 +207,40 @@ def main():
     for coq, cname in (("kInstrumentNamePattern", "kInstrumentNamePattern"), ("kInstrumentUnitPattern", "kInstrumentUnitPattern")):
         m = find(V, r"%s\s*=\s*((?:\"(?:[^\"\\]|\\.)*\"\s*)+);" % cname, cname)
         emit(coq_regex(coq, parse_regex(join_literals(m.group(1)))))
+    # the name a disabled SDK Logger answers with (api NoopLogger::GetName), used by the LoggerProvider registry lookup (C19)
+    m = find("api/include/opentelemetry/logs/noop.h",
+             r"class\s+NoopLogger\b.*?GetName\(\)\s*noexcept\s*override\s*\{\s*return\s*(\"(?:[^\"\\]|\\.)*\")\s*;", "NoopLogger::GetName literal")
+    emit("Definition kNoopLoggerName : list N := [%s]." % "; ".join(str(b) for b in join_literals(m.group(1))))
 
     # --- metrics limits (C08) and default histogram boundaries (C07)
     A = "sdk/include/opentelemetry/sdk/metrics/state/attributes_hashmap.h"
     nat_const("kAggregationCardinalityLimit", A, r"kAggregationCardinalityLimit\s*=\s*(\d+)\s*;")
+
+    # --- B3 / Jaeger propagators (C16): id sizes and the hex-string lengths the B3 buffers are derived from
+    nat_const("kTraceIdBytes", "api/include/opentelemetry/trace/trace_id.h", r"static\s+constexpr\s+int\s+kSize\s*=\s*(\d+)\s*;", "TraceId::kSize")
+    nat_const("kSpanIdBytes", "api/include/opentelemetry/trace/span_id.h", r"static\s+constexpr\s+int\s+kSize\s*=\s*(\d+)\s*;", "SpanId::kSize")
+    P = "api/include/opentelemetry/trace/propagation/b3_propagator.h"
+    nat_const("kB3TraceIdHexStrLength", P, r"kTraceIdHexStrLength\s*=\s*(\d+)\s*;")
+    nat_const("kB3SpanIdHexStrLength", P, r"kSpanIdHexStrLength\s*=\s*(\d+)\s*;")
+
+    # --- environment readers and resources (C18): see tools/c18_consts.py
+    sys.path.insert(0, os.path.dirname(os.path.abspath(__file__)))
+    from c18_consts import emit_c18
+    emit_c18(emit, find, src, join_literals, Missing)
+
+    # --- context key under which the active span is stored (C10)
+    m = find("api/include/opentelemetry/trace/span_metadata.h", r"constexpr\s+char\s+kSpanKey\[\]\s*=\s*(\"(?:[^\"\\]|\\.)*\")\s*;", "kSpanKey")
+    emit("Definition kSpanKeyBytes : list N := [%s]." % "; ".join(str(b) for b in join_literals(m.group(1))))
+
+    # --- histogram defaults and sentinels (C07): see tools/c07_consts.py
+    sys.path.insert(0, os.path.dirname(os.path.abspath(__file__)))
+    from c07_consts import emit_c07
+    emit_c07(emit, find, src, Missing)
+
+    # --- samplers and the sampling part of Tracer::StartSpan (C12): see tools/c12_consts.py
+    sys.path.insert(0, os.path.dirname(os.path.abspath(__file__)))
+    from c12_consts import emit_c12
+    emit_c12(emit, find, src, join_literals, Missing)
 
     text = "\n".join(out) + "\n"
     old = None
